@@ -108,17 +108,17 @@ func (fx *FnExec) builtin(st *State, in *ssa.Call, b *ssa.Builtin, k cont) {
 		h := eng.heapGet(st, comp)
 		// only single-element appends are modelled (the appended slice must have length 1)
 		fx.safety(st, "subset", fx.siteName(in)+".append-one", "(= "+app("sl_len", x.T)+" 1)")
-		x0 := sel(sel(h, app("sl_arr", x.T)), app("sl_off", x.T))
+		x0 := sel(sel(h, app("sl_arr", x.T)), app("idx", app("sl_off", x.T), "0"))
 		ln, cp, ar, of := app("sl_len", s.T), app("sl_cap", s.T), app("sl_arr", s.T), app("sl_off", s.T)
 		inplace := "(< " + ln + " " + cp + ")"
 		// in place
-		hIn := store(h, ar, store(sel(h, ar), "(+ "+of+" "+ln+")", x0))
+		hIn := store(h, ar, store(sel(h, ar), app("idx", of, ln), x0))
 		// reallocation
 		ref := fx.newRef(st)
 		na := eng.fresh(st, "newarr", "(Array Int "+es+")")
 		j := eng.freshName("j")
-		st.assume("(forall ((" + j + " Int)) (! (=> (and (<= 0 " + j + ") (< " + j + " " + ln + ")) (= (select " + na + " " + j + ") (select (select " + h + " " + ar + ") (+ " + of + " " + j + ")))) :pattern ((select " + na + " " + j + "))))")
-		st.assume("(= (select " + na + " " + ln + ") " + x0 + ")")
+		st.assume("(forall ((" + j + " Int)) (! (=> (and (<= 0 " + j + ") (< " + j + " " + ln + ")) (= (select " + na + " (idx 0 " + j + ")) (select (select " + h + " " + ar + ") (idx " + of + " " + j + ")))) :pattern ((select " + na + " (idx 0 " + j + ")))))")
+		st.assume("(= (select " + na + " (idx 0 " + ln + ")) " + x0 + ")")
 		ncap := eng.fresh(st, "newcap", SInt)
 		st.assume("(> " + ncap + " " + ln + ")")
 		hRe := store(h, ref, na)
